@@ -225,38 +225,37 @@ def scheduler_accounting_is_paired(ctx):
     that entry of the popped record (clamped at 0); the wait returned to the caller is the
     accumulated total; the stream sleeps exactly the advised retry_time before it
     re-consumes (a retry releases the scheduled request whatever time has passed)."""
+    from ..poly import equal as _peq
     sc = ctx.func('bandwidth.ConsumptionScheduler.schedule_consumption')
-    adds = [n for n in own_nodes(sc.node) if isinstance(n, ast.AugAssign) and dotted(n.target) == 'self._total_wait' and isinstance(n.op, ast.Add)]
-    ctx.ob(sc, 'self._total_wait += time_to_consume', len(adds) == 1 and isinstance(adds[0].value, ast.Name) and adds[0].value.id in sc.params and not q.guards(adds[0]),
-           'each scheduled request must add its own share to the accumulated wait')
-    amount = adds[0].value.id if adds and isinstance(adds[0].value, ast.Name) else None
-    recs = [n for n in own_nodes(sc.node) if isinstance(n, ast.Assign) and isinstance(n.targets[0], ast.Subscript) and norm(n.targets[0].value) == 'self._tokens_to_scheduled_consumption'
-            and isinstance(n.value, ast.Dict)]
+    amount, token = sc.params[3], sc.params[2]
+    eff = q.straightline(sc)
+    ctx.need(eff is not None, 'schedule_consumption is no longer a straight line of assignments')
+    tot = eff.get('self._total_wait')
+    ctx.ob(sc, 'self._total_wait += time_to_consume', tot is not None and _peq(tot, f'self._total_wait + {amount}'),
+           f'each scheduled request must add its own share to the accumulated wait; new total = {norm(tot) if tot is not None else None}')
+    recs = [(k_, v) for k_, v in eff.items() if k_.startswith('self._tokens_to_scheduled_consumption[') and isinstance(v, ast.Dict)]
     key = None
     if len(recs) == 1:
-        for k, v in zip(recs[0].value.keys, recs[0].value.values):
+        for k, v in zip(recs[0][1].keys, recs[0][1].values):
             if isinstance(k, ast.Constant) and norm(v) == amount:
                 key = k.value
-    ctx.ob(sc, f'the share is recorded in the token record (key {key!r})', key is not None and norm(recs[0].targets[0].slice) == sc.params[2] if recs else False,
+    ctx.ob(sc, f'the share is recorded in the token record (key {key!r})', key is not None and recs[0][0] == f'self._tokens_to_scheduled_consumption[{token}]' if recs else False,
            'the record must remember how much this request added')
-    rets = [norm(x.value) for x in own_nodes(sc.node) if isinstance(x, ast.Return)]
-    g = ctx.cfg(sc)
-    ok = rets == ['self._total_wait'] and bool(adds) and g.all_dominate(g.nodes_of(adds[0]), [n for x in own_nodes(sc.node) if isinstance(x, ast.Return) for n in g.nodes_of(x)], g.NORMAL)
-    ctx.ob(sc, 'returns the accumulated wait (after adding its share)', ok, 'a request must wait for everything scheduled before it plus its own share')
+    ret = eff.get('<return>')
+    ctx.ob(sc, 'returns the accumulated wait (after adding its share)', ret is not None and tot is not None and _peq(ret, f'self._total_wait + {amount}'),
+           'a request must wait for everything scheduled before it plus its own share')
     pr = ctx.func('bandwidth.ConsumptionScheduler.process_scheduled_consumption')
     pops = [c for c in own_calls(pr.node) if (dotted(c.func) or '') == 'self._tokens_to_scheduled_consumption.pop']
-    rec = pops[0]._parent.targets[0].id if len(pops) == 1 and isinstance(pops[0]._parent, ast.Assign) else None
-    upd = [n for n in own_nodes(pr.node) if isinstance(n, (ast.Assign, ast.AugAssign)) and dotted(n.targets[0] if isinstance(n, ast.Assign) else n.target) == 'self._total_wait']
+    eff2 = q.straightline(pr)
+    ctx.need(eff2 is not None, 'process_scheduled_consumption is no longer a straight line of assignments')
+    tot2 = eff2.get('self._total_wait')
     ok = False
-    if len(upd) == 1 and rec is not None and key is not None:
-        v = upd[0].value
-        want = f"self._total_wait - {rec}['{key}']"
-        if isinstance(upd[0], ast.Assign):
-            ok = norm(v) in (f'max({want}, 0)', f'max(0, {want})')
-        else:
-            ok = isinstance(upd[0].op, ast.Sub) and norm(v) == f"{rec}['{key}']"
+    if tot2 is not None and key is not None and len(pops) == 1:
+        popt = norm(pops[0])
+        want = f"self._total_wait - {popt}['{key}']"
+        ok = norm(tot2) in (f'max({want}, 0)', f'max(0, {want})')
     ctx.ob(pr, f"self._total_wait = max(self._total_wait - record[{key!r}], 0) for the popped record", ok,
-           f'releasing a request must give back exactly the share it added; found {norm(upd[0]) if upd else None}')
+           f'releasing a request must give back exactly the share it added; found {norm(tot2) if tot2 is not None else None}')
     ctx.ob(pr, 'the token record is removed', len(pops) == 1 and norm(pops[0].args[0]) == pr.params[1], 'a released token must no longer count as scheduled')
     # the stream sleeps the advised time
     f = ctx.func('bandwidth.BandwidthLimitedStream._consume_through_leaky_bucket')
